@@ -47,6 +47,16 @@ def run(ctx):
         sgc = [l for l in log if l[0] == "xfab.sg.sg"]
         ctx.check(len(sgc) == 1 and sgc[0][2].get("sgname") == "SGNAME" and not sgc[0][1], "C07:law:group-%d-%d" % (nsym, natoms),
                   "the operations do not come from sg.sg(sgname=sgname)", where)
+    # a group with a concrete inversion whose translation part is not zero (origin choice 1 of 25 tabulated groups): F is
+    # complex there, F(h) = |F| e^{i pi h.t}; a shortcut for "centrosymmetric, hence real" is wrong
+    INV = [[[1, 0, 0], [0, 1, 0], [0, 0, 1]], [[-1, 0, 0], [0, -1, 0], [0, 0, -1]]]
+    for adp in ("Uiso", "Uani"):
+        atoms = [SF.make_atom("1", adp)]
+        (Fr, Fi), log, hkl, ucell = SF.evaluate(mod, atoms, 2, None, rot=INV)
+        Rr, Ri = SF.reference(atoms, 2, None, "RbRt", rot=INV)
+        ctx.check(Fr.equals(Rr) and Fi.equals(Ri), "C07:law:inversion-off-origin:%s" % adp,
+                  "for the group {1, (-1, t)} with t != 0 F differs from the sum over both operations (%s part): an inversion centre "
+                  "away from the origin does not make F real" % ("imaginary" if Fr.equals(Rr) else "real"), where)
     # isotropic atom: position law alone
     atoms = [SF.make_atom("1", "Uiso")]
     (Fr, Fi), log, hkl, ucell = SF.evaluate(mod, atoms, 2, None)
